@@ -1,6 +1,7 @@
 import Zrnt.Driver.Loop
 import Zrnt.Beacon.Impl.Block
 import Zrnt.Beacon.Spec.BlockTransition
+import Zrnt.Beacon.Impl.BlockM
 /-!
 `zmodel c01pieces` (stateless): ties every piece of the code-shaped model `M`
 (`Zrnt/Beacon/Impl/Block.lean`) to the exported Go function it models. Answers `<M> | <S>`;
@@ -11,6 +12,7 @@ import Zrnt.Beacon.Spec.BlockTransition
 * `indexed max=<N> <list>`         `ValidateIndexedAttestationIndicesSet` → `ok true` (nil) / `ok false` (error)
 * `domain <t4> <v4> <g32> <o32>`   `ComputeSigningRoot(o, ComputeDomain(t, v, g))` → hex
 * `withdrawals <cfg> <state>`      `capella.GetExpectedWithdrawals` → `ok idx:vi:addr:amount;…` / `err`
+* `wdapply pw=<withdrawals> <cfg> <state>`  `capella.ProcessWithdrawals` (comparison, balances, index and cursor update) → `ok <abbrev state>` / `err`
 * `initexit index=<i> <cfg> <state>`  `phase0.InitiateValidatorExit` → `ok <abbrev state>` / `err`
 -/
 namespace Zrnt.Beacon.BlockPieces
@@ -81,6 +83,17 @@ def piecesLine (line : String) : String :=
     | .ok cfg, .ok s =>
       resStr showWithdrawals (expectedWithdrawals cfg s) ++ " | " ++ smStr showWithdrawals (Block.get_expected_withdrawals cfg s)
     | _, _ => "bad-op"
+  | ["wdapply"] =>
+    match parseConfig kv, parseState kv, (kv.get? "pw").map (pList ";" pWithdrawal) with
+    | .ok cfg, .ok s, some (.ok wl) =>
+      let payload : ExecutionPayload := ⟨default, [], wl⟩
+      let m := match BlockM.processWithdrawals cfg s payload with
+        | .ok s' => "ok " ++ printStateAbbrev s'
+        | .err => "err"
+        | .panic => "panic"
+        | .outOfFuel => "outOfFuel"
+      m ++ " | " ++ smStr printStateAbbrev (Block.process_withdrawals cfg s payload)
+    | _, _, _ => "bad-op"
   | ["initexit"] =>
     match parseConfig kv, parseState kv, kv.get? "index" >>= (·.toNat?) with
     | .ok cfg, .ok s, some index =>
